@@ -100,14 +100,19 @@ pub mod curve25519 {
         n.copy_from_slice(secret_key);
         let mut p = [0u8; 32];
         p.copy_from_slice(public_key);
+        // branch-free in front of the uninterpreted functions (units/README.md rule 3b)
         let bad = small_order(&p);
+        let a = public_point(&n);
+        let q = shared(&a, &p);
         if crate::model::honest_points() {
             assume(!bad);
-        } else if bad {
-            return Err(SodiumError::OperationError("curve25519 scalarmult failed (result may be all zeros)"));
+            return Ok(q);
         }
-        let a = public_point(&n);
-        Ok(shared(&a, &p))
+        if bad {
+            Err(SodiumError::OperationError("curve25519 scalarmult failed (result may be all zeros)"))
+        } else {
+            Ok(q)
+        }
     }
 
     pub fn scalarmult_base(secret_key: &[u8]) -> Result<[u8; BYTES]> {
